@@ -1,7 +1,7 @@
 INIT GenInit
 NEXT GenNext
 CONSTANTS
-  Elevs = {1, 2, 3, 4}
+  Elevs = {0, 1, 2, 255}
   MaxLen = 8
   Azs = {1, 2, 3}
   MaxSide = 3
